@@ -101,8 +101,10 @@ P = {
 import re
 def ties(pid):
     """names of the translated-source tie theorems of a property (Props/Cxx.lean, section Tie)"""
-    src = open(os.path.join(V, "lean", "NotationModel", "Props", pid + ".lean")).read()
-    return re.findall(r"theorem\s+(source_\w+_refines_model)", src)
+    import glob
+    files = [os.path.join(V, "lean", "NotationModel", "Props", pid + ".lean")] + sorted(glob.glob(os.path.join(V, "lean", "NotationModel", "Props", pid + "_*.lean")))
+    src = "\n".join(open(f).read() for f in files)
+    return re.findall(r"theorem\s+(source_\w+_refines_model\w*)", src)
 
 def entry(pid, d):
     t = ties(pid)
